@@ -40,10 +40,14 @@ func NewGitNode(
 		return nil, err
 	}
 
-	basePath, path := func() (string, string) {
-		x := strings.Split(u.Path, "//")
-		return x[0], x[1]
-	}()
+	x := strings.Split(u.Path, "//")
+	if len(x) < 2 {
+		return nil, &errors.TaskfileInvalidError{
+			URI: entrypoint,
+			Err: errors.New(`a Git Taskfile location must name the file inside the repository after "//" (for example "https://github.com/foo/bar.git//Taskfile.yml?ref=main")`),
+		}
+	}
+	basePath, path := x[0], x[1]
 	ref := u.Query().Get("ref")
 
 	rawUrl := u.String()
